@@ -100,5 +100,135 @@ theorem C10_idempotent_seq_parsed (cfg : Config) (txt : String) (π : List Pass)
     apply p c2 = .ok c2 :=
   C10_idempotent p c1 c2 (C10_legal_seq_parsed cfg txt π c c1 hp ha) h
 
+/-! ## The parser's flags -/
+
+/-- what `Builder.build` makes of the parser's tree of a text is `Legal` — BEFORE the register-count check of
+`parse_jaqal_string` (with flags that check comes after the passes) -/
+theorem built_legal {cfg : Config} {txt : String} {sx : Sx} {c : Circuit} (ht : Parser.parseText txt = .ok sx)
+    (hb : build cfg (BSx.ofSx sx) = .ok c) : Legal c := by
+  have hw := built_wellFormed cfg _ c (parseText_parserSx ht) hb
+  have hty := built_typed cfg _ c (parseText_parserSx ht) hb
+  have hs := built_blockShape cfg _ c (parseText_grammarSx ht) hb
+  obtain ⟨b, hbody⟩ := RunModel.build_body hb
+  exact ⟨hw, ⟨⟨b, hbody⟩, blocksOK_of _ hs.body hty.body, fun m hm => blocksOK_of _ (hs.macros m hm) (hty.macros m hm),
+    hty.constants, hty.regLike⟩, ⟨argsAll_deep_of _ hty.body, fun m hm => argsAll_deep_of _ (hty.macros m hm)⟩⟩
+
+/-- `parse_jaqal_string(text, override_dict=ov, expand_macro=em, expand_let=el, expand_let_map=elm, …)` from the TEXT:
+`Passes.parseWithFlags` behind the parser, as `Pipeline.parseProgram` is `Builder.parseBuild` behind the parser -/
+def parseTextWithFlags (cfg : Config) (em el elm : Bool) (ov : List (String × Num)) (txt : String) : M Circuit :=
+  (Pipeline.parseSx txt).bind (parseWithFlags cfg em el elm ov)
+
+/-- the passes `parse_jaqal_string` can run keep the number of fundamental registers of a `Legal` circuit -/
+theorem applySeq_fundCount_legal : ∀ (π : List Pass) (c c' : Circuit), Legal c → hasSubs π = false →
+    applySeq π c = .ok c' → fundCount c' = fundCount c
+  | [], c, c', _, _, h => by simp only [applySeq, pure, Except.pure, Except.ok.injEq] at h; subst h; rfl
+  | p :: ps, c, c', hL, hs, h => by
+    simp only [applySeq] at h
+    cases h1 : apply p c with
+    | error e => rw [h1] at h; cases h
+    | ok c1 =>
+      rw [h1] at h
+      simp only [hasSubs, List.any_cons, Bool.or_eq_false_iff] at hs
+      have e1 := apply_fundCount p c c1 hL.wf2 hs.1 h1
+      have e2 := applySeq_fundCount_legal ps c1 c' (C10_legal_preserved p c c1 hL h1) hs.2 h
+      rw [e2, e1]
+
+theorem catchRecursion_ok_inv {α} {r : M α} {a : α} (h : catchRecursion r = .ok a) : r = .ok a := by
+  cases r with
+  | ok b => exact h
+  | error e =>
+    cases e <;> simp only [catchRecursion] at h <;> first | cases h | (split at h <;> cases h)
+
+theorem flagPasses_noSubs (em el elm : Bool) (ov : List (String × Num)) : hasSubs (flagPasses em el elm ov) = false := by
+  cases em <;> cases el <;> cases elm <;> rfl
+
+theorem tooManyRegisters_ok {c c' : Circuit} (h : tooManyRegisters c = .ok c') : c' = c ∧ ¬ fundCount c > 1 := by
+  unfold tooManyRegisters at h
+  split at h
+  · simp [throw_eq] at h
+  · rename_i hlen
+    simp only [pure, Except.pure, Except.ok.injEq] at h
+    exact ⟨h.symm, hlen⟩
+
+theorem tooManyRegisters_of {c : Circuit} (h : ¬ fundCount c > 1) : tooManyRegisters c = .ok c := by
+  unfold tooManyRegisters
+  have : ¬ (c.registers.filter isFundamental).length > 1 := h
+  simp [this, pure, Except.pure]
+
+/-- **C10_flags for parsed circuits** — all eight combinations of the flags, `expand_let_map` included, no side condition:
+asking the parser to expand while parsing succeeds with `c'` EXACTLY when the plain parse succeeds with some `c` and the
+passes of the flags (`flagPasses`: `expand_macros(preserve_definitions=True)`, `fill_in_let(ov)`, `fill_in_map`, in this
+order) applied to `c` give `c'`.  (The register-count check, which `parse_jaqal_string` runs AFTER the passes, commutes with
+them: they keep the fundamental registers of a `Legal` circuit, and what is built from a text is `Legal`.) -/
+theorem C10_flags_parsed (cfg : Config) (em el elm : Bool) (ov : List (String × Num)) (txt : String) (c' : Circuit) :
+    parseTextWithFlags cfg em el elm ov txt = .ok c' ↔
+      ∃ c, Pipeline.parseProgram cfg txt = .ok c ∧ applySeq (flagPasses em el elm ov) c = .ok c' := by
+  unfold parseTextWithFlags Pipeline.parseProgram
+  cases hsx : Pipeline.parseSx txt with
+  | error e =>
+    constructor
+    · intro h; cases h
+    · rintro ⟨c, h, _⟩; cases h
+  | ok sx =>
+    have ht : Parser.parseText txt = .ok sx := by
+      unfold Pipeline.parseSx at hsx
+      cases hp : Parser.parseText txt with
+      | error pe => rw [hp] at hsx; cases hsx
+      | ok sx' => rw [hp] at hsx; cases hsx; rfl
+    show parseWithFlags cfg em el elm ov sx = .ok c' ↔
+      ∃ c, parseBuild cfg sx = .ok c ∧ applySeq (flagPasses em el elm ov) c = .ok c'
+    unfold parseWithFlags parseBuild
+    cases hb : build cfg (BSx.ofSx sx) with
+    | error e =>
+      constructor
+      · intro h
+        have h' : (catchRecursion (Except.error e : M Circuit)).bind tooManyRegisters = .ok c' := h
+        cases hc : catchRecursion (Except.error e : M Circuit) with
+        | error e' => rw [hc] at h'; cases h'
+        | ok x => cases catchRecursion_ok_inv hc
+      · rintro ⟨c, h, _⟩; cases h
+    | ok c0 =>
+      have hL := built_legal ht hb
+      constructor
+      · intro h
+        have h' : (catchRecursion (applySeq (flagPasses em el elm ov) c0)).bind tooManyRegisters = .ok c' := h
+        cases hc : catchRecursion (applySeq (flagPasses em el elm ov) c0) with
+        | error e' => rw [hc] at h'; cases h'
+        | ok c1 =>
+          rw [hc] at h'
+          have h2 : tooManyRegisters c1 = .ok c' := h'
+          obtain ⟨rfl, hcount⟩ := tooManyRegisters_ok h2
+          have ha := catchRecursion_ok_inv hc
+          have hf := applySeq_fundCount_legal _ c0 c' hL (flagPasses_noSubs em el elm ov) ha
+          refine ⟨c0, ?_, ha⟩
+          show tooManyRegisters c0 = .ok c0
+          exact tooManyRegisters_of (by omega)
+      · rintro ⟨c, h, ha⟩
+        have h2 : tooManyRegisters c0 = .ok c := h
+        obtain ⟨hcc, hcount⟩ := tooManyRegisters_ok h2
+        rw [hcc] at ha
+        have hf := applySeq_fundCount_legal _ c0 c' hL (flagPasses_noSubs em el elm ov) ha
+        show (catchRecursion (applySeq (flagPasses em el elm ov) c0)).bind tooManyRegisters = .ok c'
+        rw [ha]
+        show tooManyRegisters c' = .ok c'
+        exact tooManyRegisters_of (by omega)
+
+/-- the direction the name promises, for a given plain parse -/
+theorem C10_flags_parsed_ok (cfg : Config) (em el elm : Bool) (ov : List (String × Num)) (txt : String) (c c' : Circuit)
+    (hp : Pipeline.parseProgram cfg txt = .ok c) (ha : applySeq (flagPasses em el elm ov) c = .ok c') :
+    parseTextWithFlags cfg em el elm ov txt = .ok c' :=
+  (C10_flags_parsed cfg em el elm ov txt c').2 ⟨c, hp, ha⟩
+
+/-- without flags it succeeds exactly when `Pipeline.parseProgram` does, with the same circuit (on failure the classes can
+differ: the flagged entry converts a `RecursionError` of the builder) -/
+theorem parseTextWithFlags_plain (cfg : Config) (ov : List (String × Num)) (txt : String) (c : Circuit) :
+    parseTextWithFlags cfg false false false ov txt = .ok c ↔ Pipeline.parseProgram cfg txt = .ok c := by
+  rw [C10_flags_parsed]
+  constructor
+  · rintro ⟨c0, hp, ha⟩
+    simp only [flagPasses, applySeq, pure, Except.pure, Except.ok.injEq, Bool.false_eq_true, if_false, List.append_nil] at ha
+    rw [← ha]; exact hp
+  · intro hp
+    exact ⟨c, hp, rfl⟩
 
 end Jaqal.Passes
